@@ -17,7 +17,7 @@ CORR_MODULES = ["Wire.WireCorr"]
 PREFIX = "C07"
 CASE_TYPE = "C07_case"
 HARNESS = "c07"
-KNOWN = {1: "C07-fragset-numbits", 2: "C07-inforeply-overread", 3: "C07-data-rescan"}
+KNOWN = {}   # the three former classes were repaired in /repo (221c5f8, 0cb9fa7)
 
 # ---------------------------------------------------------------------------------------
 # PLACE FOR THE OTHER DECODERS OF C07 (discovery parameter lists: participant, publication,
@@ -26,6 +26,12 @@ KNOWN = {1: "C07-fragset-numbits", 2: "C07-inforeply-overread", 3: "C07-data-res
 # CASE_TYPE / HARNESS / gen / case_term ...) whose correspondence `extra(ctx, binary)` below runs
 # after the RTPS one.  Empty: this check, its theorems and its MANIFEST text claim the RTPS
 # message decoder only.
+# Discovery part: covered by proof, not re-run here — Props/C13.v proves C13_decode_total_topic /
+# _publication / _subscription / _participant (`<decoder> d <> Panic p` for every byte string d)
+# and ./check C13 ties that model to the code; the MANIFEST text below refers to them.
+# XCDR user payloads: their own check (C09/C10 owner); not referenced as covered.
+DISCOVERY_THEOREMS = ["C13_decode_total_generic", "C13_decode_total_topic", "C13_decode_total_publication",
+                      "C13_decode_total_subscription", "C13_decode_total_participant"]
 EXTRA_DECODERS = []
 # ---------------------------------------------------------------------------------------
 
@@ -59,12 +65,10 @@ TRUSTED = ["theories/Wire/WireModel.v is a hand transcription of dds/src/rtps_me
            "with modelled struct sizes (88-byte submessage, 24-byte Parameter/Locator, 16-byte Arc header)",
            "memory of the real code is what its global allocator is asked for (counting allocator in the harness)"]
 ASSUMPTIONS = ["debug profile (overflow checks on), as built by the harness",
-               "RTPS message decoder only (EXTRA_DECODERS is empty): parameter-list and XCDR payload decoders are "
-               "covered by other checks",
-               "no panic is claimed outside the recorded class C07-fragset-numbits (inside it the decoder always "
-               "panics); linear retained memory outside C07-inforeply-overread; linear copy/loop/allocation cost "
-               "outside C07-inforeply-overread and C07-data-rescan",
-               "the memory and cost theorems are stated for lists of bytes (0..255); the no-panic theorem for any list"]
+               "this check runs the RTPS message decoder; the discovery parameter-list decoders are covered by the "
+               "theorems C13_decode_total_* of Props/C13.v (checked by ./check C13), the XCDR payload decoder by its "
+               "own check",
+               "all three theorems are unconditional: every input list, bytes or not"]
 
 U16 = [0, 1, 2, 3, 4, 5, 7, 8, 12, 16, 20, 24, 28, 31, 32, 33, 255, 256, 257, 288, 0x7fff, 0x8000, 0xfffc, 0xffff]
 U32 = [0, 1, 2, 31, 32, 33, 255, 256, 257, 288, 512, 65535, 65536, 0x7fffffff, 0x80000000, 0xfffffeff, 0xffffff00, 0xffffff01, 0xfffffffe, 0xffffffff]
@@ -230,13 +234,20 @@ def gen(r, tier):
 
 
 def corpus():
+    # regression inputs of the three repaired defects
     nf288 = bytes.fromhex("525450530203090803030303030303030303030312013c0001020304060708090000000009000000"
                           "02000000200100000000008000000000000000000000000000000000000000000000000000000000"
-                          "0100000007000000")
+                          "0100000007000000")                                     # 84 bytes, NACK_FRAG numBits = 288: now skipped
+    reply_flood = bytearray()
+    for i in range(256):
+        reply_flood += sub(0x0f, 1, struct.pack("<I", (2048 - 8 * (i + 1)) // 24), sublen=4)   # INFO_REPLY over-read chain
     return [b"", b"RTPS", HDR, HDR + sub(0x01, 1, b""), nf288,
             HDR + sub(0x12, 1, bytes(16) + struct.pack("<II", 0xffffffff, 1) + struct.pack("<i", -2**31) + bytes(4)),
             HDR + sub(0x06, 1, bytes(8) + struct.pack("<iIIi", 0x7fffffff, 0xffffffff, 1, -2**31) + bytes(4)),
-            HDR + sub(0x15, 3, b"", sublen=0) * 8]
+            HDR + sub(0x15, 3, b"", sublen=0) * 8,
+            HDR + bytes(reply_flood),
+            HDR + sub(0x15, 3, b"", sublen=0) * 512,                              # DATA length 0 flood: one scan
+            HDR + sub(0x16, 3, b"", sublen=0) * 512]
 
 
 def case_line(c):
@@ -283,21 +294,19 @@ def distribution(cases, outs):
 
 
 MANIFEST = {
-    "text": ("RTPS message decoder only (the discovery parameter-list and XCDR payload decoders of this property are "
-             "covered by other checks). Machine-checked proof (Coq) over a byte-level model of "
-             "RtpsMessageRead::try_from and all 12 submessage parsers, with a cost output (bytes copied, loop "
-             "iterations, bytes allocated): for EVERY byte string the decoder returns a value or an error and never "
-             "panics, except in one recorded class (NACK_FRAG with numBits > 256 or base + bit > u32::MAX, which indexes "
-             "out of the 8-word bitmap / overflows; inside the class it always panics); the memory held by the result "
-             "is at most 26 bytes per input byte except in a second recorded class (INFO_REPLY locator counts that "
-             "exceed the submessage, read from the rest of the datagram), and the copy/loop/allocation cost is at most "
-             "400 per input byte outside that class and a third one (a failing DATA of length 0 is rescanned); witnesses "
-             "show the bounds fail inside the classes. The model is tied to the code by running the real "
-             "decoder under catch_unwind with a counting allocator on thousands of random, mutated and boundary "
-             "inputs and comparing result and measured allocation with the model inside Coq."),
+    "text": ("Machine-checked proof (Coq) over a byte-level model of RtpsMessageRead::try_from and all 12 submessage "
+             "parsers, with a cost output (bytes copied, loop iterations, bytes allocated): for EVERY input the decoder "
+             "returns a value or an error and never panics; the memory held by the result is at most 26 bytes per input "
+             "byte and the copy/loop/allocation cost at most 400 per input byte (+64), unconditionally. Three defects "
+             "found by this check (FragmentNumberSet numBits, INFO_REPLY reading past its submessage, rescanning after a "
+             "failing DATA of length 0) were repaired in the code (221c5f8, 0cb9fa7); their inputs are regression cases. "
+             "The model is tied to the code by running the real decoder under catch_unwind with a counting allocator on "
+             "thousands of random, mutated and boundary inputs and comparing result and measured allocation with the "
+             "model inside Coq. The discovery parameter-list decoders named by the property are covered by the theorems "
+             "C13_decode_total_{generic,topic,publication,subscription,participant} of Props/C13.v (checked by "
+             "./check C13); the XCDR user-payload decoder is covered by its own check."),
     "note": ("Trusted: Coq kernel + vm_compute; hand model WireModel.v (checked against the code by the correspondence "
-             "run on every check); harness, counting allocator and comparator. Debug profile. Findings: "
-             "C07-fragset-numbits (panic at submessage_elements.rs:151/152), C07-inforeply-overread (quadratic memory), "
-             "C07-data-rescan (quadratic work / allocation traffic)."),
+             "run on every check); harness, counting allocator and comparator. Debug profile. No open findings; "
+             "fixed: C07-fragset-numbits (221c5f8), C07-inforeply-overread and C07-data-rescan (0cb9fa7)."),
     "technique": "Coq proof (induction over the submessage loop, cost as second output) + differential correspondence under catch_unwind with a counting allocator",
 }
